@@ -171,9 +171,42 @@ def replay(mod_name, desc, kind, witness, verbose=False):
     return False, "unknown kind"
 
 
+def isolated(fn, *args):
+    """fn(*args) in a child forked for this one call (result pickled back through a pipe).  Pool workers and the coordinating
+    process never execute the code under test themselves, so module-level state (caches, memo tables, mutable defaults) can
+    never leak from one instance or replay into another: every instance starts from the freshly imported library."""
+    import pickle
+    r, w = os.pipe()
+    pid = os.fork()
+    if pid == 0:
+        code = 0
+        try:
+            os.close(r)
+            try:
+                payload = pickle.dumps(("ok", fn(*args)))
+            except BaseException as e:      # noqa: B902 - reported to the parent, which re-raises
+                payload = pickle.dumps(("exc", "%s: %s\n%s" % (type(e).__name__, e, traceback.format_exc()[-1500:])))
+            with os.fdopen(w, "wb") as f:
+                f.write(payload)
+        except BaseException:
+            code = 1
+        finally:
+            os._exit(code)
+    os.close(w)
+    with os.fdopen(r, "rb") as f:
+        data = f.read()
+    os.waitpid(pid, 0)
+    if not data:
+        raise RuntimeError("isolated child died without a result")
+    kind, val = pickle.loads(data)
+    if kind == "exc":
+        raise RuntimeError("isolated child raised " + val)
+    return val
+
+
 def _worker(args):
     mod_name, desc, timeout_s, want = args
-    return decide(mod_name, desc, timeout_s, want)
+    return isolated(decide, mod_name, desc, timeout_s, want)
 
 
 def run_pool(mod_name, descs, timeout_s, want=("sound", "complete", "inhabited"), jobs=None, progress=None):
@@ -184,12 +217,27 @@ def run_pool(mod_name, descs, timeout_s, want=("sound", "complete", "inhabited")
     out = []
     if not descs:
         return out
-    with ctx.Pool(min(jobs, len(descs)), maxtasksperchild=8) as pool:
+    with ctx.Pool(min(jobs, len(descs)), maxtasksperchild=64) as pool:      # (each task runs in its own forked child, see isolated())
         for r in pool.imap_unordered(_worker, [(mod_name, d, timeout_s, want) for d in descs]):
             out.append(r)
             if progress:
                 progress(r)
     return out
+
+
+def _fresh_entry(args):
+    modname, fn, fargs = args
+    return getattr(importlib.import_module(modname), fn)(*fargs)
+
+
+def fresh_call(modname, fn, *fargs, timeout=600):
+    """modname.fn(*fargs) in a forked child of this process (see isolated())"""
+    return isolated(_fresh_entry, (modname, fn, fargs))
+
+
+def replay_for(d):
+    """replay function for an instance description: always in a fresh child process"""
+    return lambda mod_name, desc, kind, w: tuple(fresh_call("vlib.ea.query", "replay", mod_name, desc, kind, w))
 
 
 def absorb(rep, mod_name, results, key_of, label):
@@ -202,7 +250,7 @@ def absorb(rep, mod_name, results, key_of, label):
         for (q, v, dt) in r.get("queries", []):
             rep.count_query("%s:%s" % (q, v), dt)
         if r["status"] == "build-exception":
-            ok, detail = replay(mod_name, d, "build-exception", None)
+            ok, detail = replay_for(d)(mod_name, d, "build-exception", None)
             rep.counterexample(key_of(d, "exception"), "%s raised while emitting %s: %s" % (label, name, r["exception"]),
                                {"module": mod_name, "desc": d, "kind": "build-exception"}, ok)
             continue
@@ -222,7 +270,7 @@ def absorb(rep, mod_name, results, key_of, label):
                 rep.distinct.add((name, kind))
             elif v == "sat":
                 w = r[kind + "_witness"]
-                ok, detail = replay(mod_name, d, kind, w)
+                ok, detail = replay_for(d)(mod_name, d, kind, w)
                 what = ("accepts a pattern the specification rejects" if kind == "sound"
                         else "rejects a pattern the specification admits")
                 rep.counterexample(key_of(d, kind), "%s %s on %s: x=%r (%s)" % (label, what, name, w, detail),
@@ -271,7 +319,7 @@ def decide_spot(mod_name, desc, timeout_s=60):
 
 
 def _spot_worker(args):
-    return decide_spot(*args)
+    return isolated(decide_spot, *args)
 
 
 def run_spot(rep, mod_name, descs, key_of, label, timeout_s=60):
@@ -279,13 +327,13 @@ def run_spot(rep, mod_name, descs, key_of, label, timeout_s=60):
     if not descs:
         return
     ctx = mp.get_context("fork")
-    with ctx.Pool(min(common.ncores(), len(descs)), maxtasksperchild=8) as pool:
+    with ctx.Pool(min(common.ncores(), len(descs)), maxtasksperchild=64) as pool:
         results = list(pool.imap_unordered(_spot_worker, [(mod_name, d, timeout_s) for d in descs]))
     n = 0
     for r in results:
         d = r["desc"]
         if r["status"] == "build-exception":
-            ok, detail = replay(mod_name, d, "build-exception", None)
+            ok, detail = replay_for(d)(mod_name, d, "build-exception", None)
             rep.counterexample(key_of(d, "exception"), "%s raised on %s: %s" % (label, d["name"], r["exception"]),
                                {"module": mod_name, "desc": d, "kind": "build-exception"}, ok)
             continue
